@@ -10,7 +10,7 @@ def FeedInv (s : Option Parser × List Instr) (x : List Byte) : Prop :=
   (∃ q, s.1 = some q ∧ Post q (runA {} x) ∧ s.2 = (runA {} x).ins ∧ NoLine (rest q))
 
 theorem rel_init (ch : List Byte) : Rel { buf := ch } {} :=
-  ⟨rfl, rfl, rfl, fun h => absurd rfl h⟩
+  ⟨rfl, rfl, rfl, Iff.rfl⟩
 
 /-- one push and drain -/
 theorem feedStep_inv (s : Option Parser × List Instr) (x ch : List Byte) (hs : FeedInv s x)
